@@ -222,7 +222,7 @@ def _project(x, model, magnitude):
         r, ex = _snap(xv, cands, erad, 1e-12 * mag)
         out.append(r)
         exact = exact and ex
-    return {"k": k, "u": vec, "sv": sv, "rg": rg, "cx": cx, "v": out, "ex": bool(exact)}, coherent
+    return {"k": k, "u": vec, "sv": sv, "rg": rg, "cx": cx, "dt": _dt(arr), "v": out, "ex": bool(exact)}, coherent
 
 
 # ------------------------------------------------------------------ exponent space (powerx)
@@ -360,11 +360,11 @@ ZERO = None
 
 
 def _bare(p):
-    return {"k": "n", "u": [0] * len(_U["names"]), "sv": [0, 0, 0, 0], "rg": 0, "cx": False, "v": [list(p)], "ex": True}
+    return {"k": "n", "u": [0] * len(_U["names"]), "sv": [0, 0, 0, 0], "rg": 0, "cx": False, "dt": "f", "v": [list(p)], "ex": True}
 
 
 def _dummy():
-    return {"k": "x", "u": [0] * len(_U["names"]), "sv": [0, 0, 0, 0], "rg": 0, "cx": False, "v": [[1, 1]], "ex": True}
+    return {"k": "x", "u": [0] * len(_U["names"]), "sv": [0, 0, 0, 0], "rg": 0, "cx": False, "dt": "f", "v": [[1, 1]], "ex": True}
 
 
 # ------------------------------------------------------------------ execution
@@ -470,10 +470,18 @@ def _tb():
     return lines[:4] + lines[-6:]
 
 
-_NPDT = {"f8": np.float64, "f4": np.float32, "c16": np.complex128, "c8": np.complex64, "i8": np.int64, "i4": np.int32}
+_NPDT = {"f8": np.float64, "f4": np.float32, "c16": np.complex128, "c8": np.complex64, "i8": np.int64, "i4": np.int32, "i2": np.int16, "i1": np.int8, "u1": np.uint8, "u2": np.uint16}
+_DTCODE = {np.dtype(v).str.lstrip("<>|="): k for k, v in _NPDT.items()}
 
 
-def _leaf(model):
+def _dt(arr):
+    """dtype of observed data as the specification reads it: the code of an integer type ("i1" "u1" "i2" "u2" "i4" "i8"),
+    "f" for everything that is not integer arithmetic (Arith!IntKind only asks for that)"""
+    d = np.asarray(arr).dtype
+    return _DTCODE.get(d.str.lstrip("<>|="), "f") if d.kind in "iu" else "f"
+
+
+def _leaf(model, shape="v"):
     vals = [Fraction(n, d) for n, d in model["v"]]
     erad = model["u"][_U["rad"]]
     fl = [float(v) * (STEP ** (erad // 6) if erad else 1.0) for v in vals]
@@ -485,14 +493,16 @@ def _leaf(model):
         data = np.array([complex(fl[i], fl[n + i]) for i in range(n)], dtype=_NPDT[dt if dt in ("c16", "c8") else "c16"])
     else:
         data = np.array(fl, dtype=float)
-        if dt in ("i8", "i4"):
-            # an integer leaf where the numbers are integers (a re-expressed leaf need not be): else float64
-            if all(v.denominator == 1 for v in vals) and not erad:
+        if dt in ("i8", "i4", "i2", "i1", "u1", "u2"):
+            # an integer leaf where the numbers are integers of that type (a re-expressed leaf need not be): else float64
+            info = np.iinfo(_NPDT[dt])
+            if all(v.denominator == 1 and info.min <= v.numerator <= info.max for v in vals) and not erad:
                 data = data.astype(_NPDT[dt])
         elif dt == "f4":
             if all(float(np.float32(x)) == x for x in fl):
                 data = data.astype(np.float32)
-    if data.shape == (1,):
+    if data.shape == (1,) and shape != "o":
+        # one number: a 0-d quantity, or (shape "o") a 1-d array holding one element
         return _U["uq"](data[0], us, registry=reg)
     return _U["ua"](data, us, registry=reg)
 
@@ -504,8 +514,9 @@ def _run(case, run, variant):
     obs = []
     events = []
     errors = []
+    shapes = (case.get("cfg", {}).get("xs", "v"), case.get("cfg", {}).get("ys", "v"))
     for i in range(2):
-        x = _leaf(model[i])
+        x = _leaf(model[i], shapes[i])
         o, _ = _project(x, model[i], 0.0)
         real.append(x)
         obs.append(o)
@@ -523,9 +534,13 @@ def _run(case, run, variant):
             real.append(None)
             obs.append(None)
             continue
-        if form in ("iop", "outself") and not unary and np.ndim(a) < np.ndim(b):
-            form = "op"
+        if form in ("iop", "outself") and not unary and np.broadcast(np.asarray(a), np.asarray(b)).shape != np.shape(a):
+            form = "op"  # the broadcast result does not fit the target (NumPy refuses)
         if form in ("iop", "outself") and not ia:
+            form = "op"
+        if form in ("iop", "outself") and ia and np.asarray(a).dtype.kind in "iu" and np.asarray(a).dtype.itemsize < 4:
+            # an in-place target of a narrow integer type is retyped by the library to the float type of the same width
+            # (float16 precision for 2 bytes, a TypeError for 1 byte): precision / refusals of narrow targets are C17 / C18's
             form = "op"
         if form in ("iop", "outself") and not unary and np.iscomplexobj(b) and not np.iscomplexobj(a):
             form = "op"  # a complex result cannot be written into a real target (NumPy's casting rule)
